@@ -26,7 +26,27 @@ Proof.
     destruct (Hpre i b0 (or_introl eq_refl)) as [b' [H|H]]; rewrite H; apply IH; intros; apply Hpre; now right.
 Qed.
 
+(* what the loop over __orig_bases__ in _get_types moves past without consequences: a class, a parametrised base
+   that does not use the mixin, or a parametrised base whose origin has __orig_bases__ none of which is Generic[..] *)
+Definition passes_over (w : world) (v : val) : bool :=
+  match v with
+  | VCls _ => true
+  | VAlias (VCls p) _ =>
+      match lookup_ob w p with
+      | Some bs => forallb is_base bs && negb (existsb is_generic_alias bs)
+      | None => false
+      end
+  | _ => false
+  end.
+
 Definition in_front (w : world) (v : val) : bool := passes_over w v || foreign w v.
+
+Lemma front_ok_in_front : forall w l, forallb (front_ok w) l = true -> forallb (in_front w) l = true.
+Proof.
+  induction l as [|x l IH]; [reflexivity|]. cbn [forallb]. intro H. apply andb_true_iff in H as [H1 H2].
+  rewrite (IH H2), andb_true_r. unfold in_front, front_ok in *. destruct x; try discriminate H1; try reflexivity.
+  now rewrite H1, orb_true_r.
+Qed.
 
 Lemma front_not_generic : forall w l, forallb (in_front w) l = true -> existsb is_generic_alias l = false.
 Proof.
@@ -169,7 +189,7 @@ Lemma get_types_binding : forall w k c oc ts xs,
   call_n P w no_ext (S (S k)) "_get_types" [VInst c oc] = Ok (VDict (combine ts xs)).
 Proof.
   intros w k c oc ts xs (pre & d & post & Hl & Hpre & Hmx & Hpost & Hng & Hd).
-  rewrite (gt_binding w k c oc pre d xs post ts Hl Hpre Hmx Hpost Hng Hd).
+  rewrite (gt_binding w k c oc pre d xs post ts Hl (front_ok_in_front _ _ Hpre) Hmx Hpost Hng Hd).
   destruct Hd as (b & _ & _ & Hk). now rewrite zipdict_distinct.
 Qed.
 
@@ -352,7 +372,7 @@ Qed.
 
 Lemma binding_scan_sound : forall w bases ts xs, binding_scan w bases ts xs = true ->
   exists pre d post, bases = pre ++ VAlias (VCls d) xs :: post /\
-    forallb (fun v => passes_over w v || foreign w v) pre = true /\ uses_mixin w d = true /\
+    forallb (front_ok w) pre = true /\ uses_mixin w d = true /\
     forallb is_base post = true /\ existsb is_generic_alias post = false /\ direct_generic w d ts.
 Proof.
   induction bases as [|b bases IH]; intros ts xs H; [discriminate|].
@@ -360,11 +380,11 @@ Proof.
   - cbn [binding_scan] in H. destruct (IH _ _ H) as (pre & d & post & -> & Hp & R).
     exists (VCls c :: pre), d, post. split; [reflexivity|]. split; [|exact R]. cbn. exact Hp.
   - destruct b; try discriminate H. cbn [binding_scan] in H.
-    destruct (passes_over w (VAlias (VCls c) args) || foreign w (VAlias (VCls c) args)) eqn:Ep.
+    destruct (foreign w (VAlias (VCls c) args)) eqn:Ep.
     + destruct (IH _ _ H) as (pre & d & post & -> & Hp & R).
       exists (VAlias (VCls c) args :: pre), d, post. split; [reflexivity|]. split; [|exact R].
-      cbn [forallb]. now rewrite Ep, Hp.
-    + apply orb_false_iff in Ep as [_ Ef]. cbn [foreign] in Ef. apply negb_false_iff in Ef.
+      cbn [forallb front_ok]. now rewrite Ep, Hp.
+    + cbn [foreign] in Ep. apply negb_false_iff in Ep.
       apply andb_true_iff in H as [H H4]. apply andb_true_iff in H as [H H3]. apply andb_true_iff in H as [H1 H2].
       apply toks_eqb_eq in H1. subst args. apply negb_true_iff in H3. apply direct_generic_b_sound in H4.
       exists [], c, bases. repeat split; assumption.
@@ -411,3 +431,57 @@ Proof.
 Qed.
 
 
+
+(* ----- the executable form of the full statement's shape (chains of forwarding / partially binding classes) ---- *)
+Lemma binding_base_split : forall w bases front d xs fr post,
+  binding_base w front bases = Some (d, xs, fr, post) ->
+  front ++ bases = fr ++ VAlias (VCls d) xs :: post /\ uses_mixin w d = true.
+Proof.
+  induction bases as [|b bases IH]; intros front d xs fr post H; [discriminate|].
+  assert (Hstep : binding_base w (front ++ [b]) bases = Some (d, xs, fr, post) ->
+                  front ++ b :: bases = fr ++ VAlias (VCls d) xs :: post /\ uses_mixin w d = true).
+  { intro H'. destruct (IH _ _ _ _ _ H') as [E U]. split; [|exact U]. rewrite <- E, <- app_assoc. reflexivity. }
+  destruct b; try (apply Hstep; exact H).
+  destruct b; try (apply Hstep; exact H).
+  cbn [binding_base] in H. destruct (uses_mixin w c) eqn:Eu; [|apply Hstep; exact H].
+  inversion H; subst. split; [reflexivity|exact Eu].
+Qed.
+
+Lemma chain_binding_b_sound : forall tv w c ts xs,
+  chain_binding_b tv w c ts xs = true -> chain_binding tv w c (combine ts xs).
+Proof.
+  unfold chain_binding_b, chain_binding. intros tv w c ts xs H.
+  destruct (lookup_ob w c) as [bases|]; [|discriminate].
+  destruct (binding_base w [] bases) as [[[[d zs] front] post]|] eqn:Eb; [|discriminate].
+  destruct (binding_base_split _ _ _ _ _ _ _ Eb) as [E U]. cbn [app] in E. subst bases.
+  apply andb_true_iff in H as [H H4]. apply andb_true_iff in H as [H H3]. apply andb_true_iff in H as [H1 H2].
+  destruct (resolve tv w 8 d zs) as [kvs|] eqn:Er; [|discriminate].
+  apply andb_true_iff in H4 as [H4 H6]. apply andb_true_iff in H4 as [H4 H5].
+  apply toks_eqb_eq in H4. apply toks_eqb_eq in H5. apply negb_true_iff in H3.
+  exists 8, front, d, zs, post. repeat split; try assumption.
+  - rewrite Er. f_equal. subst ts xs. clear. induction kvs as [|[a b] kvs IH]; [reflexivity|]. cbn. now rewrite <- IH.
+  - subst ts xs. replace (combine (map fst kvs) (map snd kvs)) with kvs; [exact H6|].
+    clear. induction kvs as [|[a b] kvs IH]; [reflexivity|]. cbn. now rewrite <- IH.
+Qed.
+
+(* the guarded form is an instance of the full statement: a binding base that declares Generic[..] itself is a chain
+   of length 1 *)
+Lemma first_generic_args_app : forall pre ts post,
+  existsb is_generic_alias pre = false -> first_generic_args (pre ++ VAlias VGeneric ts :: post) = Some ts.
+Proof.
+  induction pre as [|b pre IH]; intros ts post H; [reflexivity|].
+  cbn [existsb] in H. apply orb_false_iff in H as [H1 H2]. cbn [app].
+  destruct b; try (cbn [first_generic_args]; now apply IH).
+  destruct b; try (cbn [first_generic_args]; now apply IH). discriminate H1.
+Qed.
+
+Lemma binding_is_chain : forall tv w c ts xs,
+  binding_subclass w c ts xs -> List.length ts = List.length xs -> forallb (fun x => negb (tv x)) xs = true ->
+  chain_binding tv w c (combine ts xs).
+Proof.
+  intros tv w c ts xs (pre & d & post & Hl & Hpre & Hmx & Hpost & Hng & bases & Hld & Hdecl & Hdist) Hlen Hcl.
+  exists 1, pre, d, xs, post. repeat split; try assumption.
+  - destruct (declares_first_generic _ _ Hdecl) as [Hb _]. destruct Hdecl as (p & q & -> & _ & Hp).
+    cbn [resolve]. rewrite Hld, Hb. cbn [negb]. rewrite (first_generic_args_app _ _ _ Hp), Hlen, Nat.eqb_refl, Hdist. reflexivity.
+  - apply forallb_forall. intros [a b] Hin. cbn [snd]. rewrite forallb_forall in Hcl. apply Hcl. eapply in_combine_r; eauto.
+Qed.
